@@ -11,3 +11,4 @@ open Fzf.Props.C09
 #print axioms C09_sel_survives_query
 #print axioms C09_track_follows
 #print axioms C09_excluded_stays_out
+#print axioms C09_constrain_is_source
